@@ -20,6 +20,7 @@ import (
 	"github.com/idena-network/idena-go/core/state"
 	"github.com/idena-network/idena-go/core/state/snapshot"
 	"github.com/idena-network/idena-go/crypto"
+	"github.com/idena-network/idena-go/pengings"
 	models "github.com/idena-network/idena-go/protobuf"
 	"github.com/idena-network/idena-go/protocol"
 	"github.com/klauspost/compress/s2"
@@ -110,6 +111,7 @@ func (p *countingKeysPool) AddPrivateKeysPackage(pkg *types.PrivateFlipKeysPacka
 type gossipNode struct {
 	*node
 	h        *protocol.IdenaGossipHandler
+	props    *pengings.Proposals // the handler's (persistent) proposal store
 	txCount  *countingTxPool
 	keyCount *countingKeysPool
 }
@@ -117,8 +119,8 @@ type gossipNode struct {
 func newGossipNode(r *sim.Replica) *gossipNode {
 	n := newNode(r)
 	g := &gossipNode{node: n}
-	props := n.proposals()
-	g.h = protocol.NewIdenaGossipHandler(nil, nil, r.Cfg.P2P, r.Chain, props, n.votes, r.Pool, n.flipper, r.Bus, n.keys, "1.1.0", noCeremony{})
+	g.props = n.proposals()
+	g.h = protocol.NewIdenaGossipHandler(nil, nil, r.Cfg.P2P, r.Chain, g.props, n.votes, r.Pool, n.flipper, r.Bus, n.keys, "1.1.0", noCeremony{})
 	g.txCount = &countingTxPool{TxPool: r.Pool}
 	g.keyCount = &countingKeysPool{KeysPool: n.keys}
 	g.h.VerifC12SetSyncPools(g.txCount, g.keyCount)
